@@ -246,3 +246,35 @@ where
     v.sort_by_key(|(i, _)| *i);
     v.into_iter().map(|(_, r)| r).collect()
 }
+
+/// the same without runner children (cases that drive another program, e.g. the command-line host)
+pub fn par_map_plain<C, R, I, F>(workers: usize, cases: I, judge: F) -> Vec<R>
+where
+    C: Send,
+    R: Send,
+    I: Iterator<Item = C> + Send,
+    F: Fn(C) -> R + Sync,
+{
+    let source = Arc::new(Mutex::new(cases.enumerate()));
+    let results: Arc<Mutex<Vec<(usize, R)>>> = Arc::new(Mutex::new(Vec::new()));
+    std::thread::scope(|scope| {
+        for _ in 0..workers.max(1) {
+            let source = source.clone();
+            let results = results.clone();
+            let judge = &judge;
+            scope.spawn(move || loop {
+                let next = source.lock().unwrap().next();
+                match next {
+                    Some((i, c)) => {
+                        let r = judge(c);
+                        results.lock().unwrap().push((i, r));
+                    }
+                    None => break,
+                }
+            });
+        }
+    });
+    let mut v = Arc::try_unwrap(results).ok().unwrap().into_inner().unwrap();
+    v.sort_by_key(|(i, _)| *i);
+    v.into_iter().map(|(_, r)| r).collect()
+}
